@@ -84,3 +84,12 @@ CASES += [
         ("quantarhei/core/valueaxis.py", "        \"\"\"Returns the minimum value on the axis\n\n        \"\"\"\n        return self.start",
          "        \"\"\"Returns the minimum value on the axis\n\n        \"\"\"\n        return self.data[0]", 1)]},
 ]
+
+CASES += [
+    {"name": "copy of a frequency axis forgets time_start (seeded change of round 7)", "kind": "mutant", "rule": "C13-F", "edits": [
+        ("quantarhei/core/frequency.py", "        axis = FrequencyAxis(self.start, self.length, self.step,\n                             atype=self.atype, time_start=self.time_start)",
+         "        with energy_units(\"int\"):\n            axis = FrequencyAxis(self.start, self.length, self.step,\n                                 atype=self.atype)", 1)]},
+    {"name": "copy of a frequency axis made under internal units with all parameters", "kind": "twin", "edits": [
+        ("quantarhei/core/frequency.py", "        axis = FrequencyAxis(self.start, self.length, self.step,\n                             atype=self.atype, time_start=self.time_start)",
+         "        with energy_units(\"int\"):\n            axis = FrequencyAxis(self.start, self.length, self.step,\n                                 self.atype, self.time_start)", 1)]},
+]
